@@ -3,6 +3,7 @@
 from __future__ import annotations
 
 from ..rules import sqlplace
+from ..rules import triviality
 from .common import new_run
 
 LEVEL = "other"
@@ -31,4 +32,5 @@ def check(model, tier):
     sqlplace.r02_1_placement_table(ctx, rule="R11.2")
     sqlplace.r11_3_emission(ctx)
     sqlplace.r08_3_order_by_scope(ctx, rule="R11.4")
+    triviality.r05_2_noop_predicates_agree(ctx, rule="R11.5")
     return run
